@@ -223,6 +223,25 @@ def run_property(prop, tier, seed, args):
                 ob_proved += 1
             elif o["verdict"] == "undecided":
                 undecided.append((label, name))
+        # cover (DESIGN 2.10): a contract with postconditions for the normal return is vacuous on a tree where no
+        # path returns normally any more; it is an obligation of its own, judged against the baseline (cases that
+        # never return -- "always refused" cases -- are not in the baseline and are not reported)
+        con_ = REGISTRY.contracts[r["qualname"]]
+        if any(on == "return" for _c, _l, on in con_.ensures_):
+            cname = r["qualname"] + "::cover.normal_return_reachable"
+            ckey = cname + (f" [{r['case']}]" if r.get("case") else "")
+            if "return" in r["exits"]:
+                r["obligations"][cname] = {"verdict": "proved", "backends": ["path-cover"]}
+                n += 1
+                ob_total += 1
+                ob_proved += 1
+            elif baseline.get(ckey) == "proved":
+                n += 1
+                ob_total += 1
+                e_ = {"name": cname, "verdict": "refuted", "witness": None,
+                      "detail": f"case {r.get('case')!r}: no path of {r['qualname']} returns normally on this tree (exits: {r['exits']}), "
+                                "although the contract states postconditions for the normal return and such a path existed at baseline"}
+                handle_extra_refutation(prop, e_, known, violations, known_lines)
         if n == 0:
             errors.append((r["qualname"], r["case"], "zero obligations generated"))
         fn_rows.append({"function": label, "source_hash": r["source_hash"], "paths": r["paths"], "obligations": n,
@@ -441,7 +460,9 @@ def handle_extra_refutation(prop, e, known, violations, known_lines):
         json.dump({"property": prop, "obligation": e["name"], "detail": e.get("detail"),
                    "witness": e.get("witness")}, f, indent=1, default=str)
     tail = "" if e.get("witness") is not None else " no-failing-input-found"
-    violations.append(f"VIOLATION property={prop} replay={path}{tail}")
+    line = f"VIOLATION property={prop} replay={path}{tail}"
+    if line not in violations:
+        violations.append(line)
 
 
 def handle_standin_failure(prop, s, fail, known, violations, known_lines):
